@@ -318,10 +318,24 @@ theorem checkSignatureOvc_false (restricted : Bool) (kindOf : κ → CertKind) (
     checkSignatureOvc restricted kindOf order onlyMd false md m = checkSignature restricted kindOf order onlyMd md m := by
   simp [checkSignatureOvc, checkSignature]
 
+omit [DecidableEq κ] in
+theorem redirectCheckP_accepted {kindOf : κ → CertKind} {own : κ} {order : List RoleKind} {md : Metadata ι κ}
+    {issuer : Option ι} {signer : Option κ} {p : DetParams} [DecidableEq κ]
+    (h : (redirectCheckP kindOf own order md issuer signer p).verdict = .accepted) :
+    p = .ok ∧ (redirectCheck kindOf own order md issuer signer).verdict = .accepted := by
+  cases p with
+  | missing => cases h
+  | unimplemented =>
+    unfold redirectCheckP at h
+    cases hmc : mdCerts order md issuer .signing with
+    | none => rw [hmc] at h; cases h
+    | some cs => rw [hmc] at h; cases h
+  | ok => exact ⟨rfl, h⟩
+
 theorem accept_detached_accepted {restricted : Bool} {kindOf : κ → CertKind} {own : κ} {order : List RoleKind}
-    {onlyMd ovc must : Bool} {md : Metadata ι κ} {env : Bool} {m : Msg ι κ} (hm : (must || ovc) = true)
-    (h : (accept restricted kindOf own order onlyMd ovc must md (.detached env) m).accepted = true) :
-    (redirectCheck kindOf own order md m.issuer m.signer).verdict = .accepted := by
+    {onlyMd ovc must : Bool} {md : Metadata ι κ} {env : Bool} {p : DetParams} {m : Msg ι κ} (hm : (must || ovc) = true)
+    (h : (accept restricted kindOf own order onlyMd ovc must md (.detached env p) m).accepted = true) :
+    (redirectCheckP kindOf own order md m.issuer m.signer p).verdict = .accepted := by
   unfold accept at h
   simp only [hm, if_true] at h
   split at h
@@ -333,8 +347,8 @@ theorem accept_detached_accepted {restricted : Bool} {kindOf : κ → CertKind} 
     · cases h
 
 theorem accept_detached_env_accepted {restricted : Bool} {kindOf : κ → CertKind} {own : κ} {order : List RoleKind}
-    {onlyMd ovc must : Bool} {md : Metadata ι κ} {m : Msg ι κ}
-    (h : (accept restricted kindOf own order onlyMd ovc must md (.detached true) m).accepted = true) :
+    {onlyMd ovc must : Bool} {md : Metadata ι κ} {p : DetParams} {m : Msg ι κ}
+    (h : (accept restricted kindOf own order onlyMd ovc must md (.detached true p) m).accepted = true) :
     (checkSignatureOvc restricted kindOf order onlyMd ovc md m).verdict = .accepted := by
   unfold accept at h
   simp only [if_true] at h
